@@ -214,7 +214,7 @@ def verdict(section):
 
 
 # --------------------------------------------------------------------------- driver
-def run(pid, kani_units, tier='quick', seed=0):
+def run(pid, kani_units, tier='quick', seed=0, only=None):
     t0 = time.time()
     try:
         files, harnesses = collect(kani_units)
@@ -223,6 +223,8 @@ def run(pid, kani_units, tier='quick', seed=0):
                  'output': '', 'counts_as_proof': False, 'baseline': False, 'bound': '', 'wall_s': 0.0}]
     selected = [h for h in harnesses
                 if (h['props'] is None or pid in h['props']) and (tier == 'thorough' or h['tier'] == 'quick')]
+    if only:
+        selected = [h for h in harnesses if h['harness'] in only]
     skipped = [h for h in harnesses if h not in selected and (h['props'] is None or pid in h['props'])]
     results = []
     if not selected:
@@ -315,9 +317,10 @@ def main(argv):
     ap.add_argument('--tier', default='quick')
     ap.add_argument('--pid', default='adhoc')
     ap.add_argument('--rebaseline', action='store_true')
+    ap.add_argument('--only', default='', help='development: comma-separated harness names')
     ap.add_argument('-v', action='store_true')
     a = ap.parse_args(argv)
-    res = rebaseline(a.kunits, a.tier) if a.rebaseline else run(a.pid, a.kunits, a.tier)
+    res = rebaseline(a.kunits, a.tier) if a.rebaseline else run(a.pid, a.kunits, a.tier, only=[x for x in a.only.split(',') if x] or None)
     for r in res:
         print('%-44s %-9s proof=%-5s base=%-5s tier=%-8s %6.1fs  %s' % (r['harness'], r['status'], r['counts_as_proof'], r['baseline'],
               r.get('tier', ''), r.get('verify_s') or 0.0, r['reason'][:160]))
